@@ -51,6 +51,11 @@ type lfCase struct {
 	// that part (same signature), so that only a genuine interaction gets a
 	// signature of its own.
 	parts []string
+	// pnames (parallel to probes, optional): what each probe observes; a differing probe is then reported as
+	// probe-differs:<name> and all probes are compared (without names: the first differing probe only).
+	pnames []string
+	// inh: the inheritance world this case was generated from (inherit.go)
+	inh *inhWorld
 }
 
 var partWhats = map[string]map[string]bool{}
@@ -271,6 +276,16 @@ type lfFail struct {
 func execLF(c *lfCase, res *engine.Result) {
 	res.Hit("lf-case")
 	res.Hit("lf-kind:" + c.kind)
+	if c.inh != nil {
+		res.Hit("lf-inherit-world")
+		res.Hit("lf-inherit-world:" + c.inh.fam.lang)
+		if c.inh.repeats {
+			res.Hit("lf-inherit-leaf-repeats-distant")
+		}
+		if c.inh.restates {
+			res.Hit("lf-inherit-leaf-restates-nearer")
+		}
+	}
 	var fails []*lfFail
 	var ntexts int
 	var outcome string
@@ -678,89 +693,135 @@ func runWorld(c *lfCase, res *engine.Result) (fails []*lfFail, ntexts int, outco
 				detail: fmt.Sprintf("margin %d: %s; text %q", m, detail, strings.ReplaceAll(text, prefix, "$"))})
 		}
 		text2 := strings.ReplaceAll(text, prefix, copyPrefix)
-		s2 := slip.NewScope()
-		if c.support != "" {
-			if _, err := lisp.EvalIn(s2, ren(c.support, copyPrefix)); err != nil {
-				res.Fail("harness:lf-support-failed", c.label+": copy: "+err.String())
-				return
-			}
-		}
-		var code slip.Code
-		var err *lisp.Err
-		func() {
-			defer func() {
-				if rec := recover(); rec != nil {
-					err = lisp.ErrFromRecovered(rec)
-				}
-			}()
-			code = slip.ReadString(text2, s2)
-		}()
-		if err != nil {
-			fail(errWhat("read-error", err), "reading the text => "+err.String())
-			continue
-		}
-		if len(code) != len(forms) {
-			fail("form-count", fmt.Sprintf("the text reads as %d forms, %d were printed", len(code), len(forms)))
-			continue
-		}
+		var s2 *slip.Scope
 		failed := false
 		degraded := ""
-	evalForms:
-		for i, form := range code {
+		var deferred func()
+		for pass := 0; ; pass++ {
+			s2 = slip.NewScope()
+			if c.support != "" {
+				if _, err := lisp.EvalIn(s2, ren(c.support, copyPrefix)); err != nil {
+					res.Fail("harness:lf-support-failed", c.label+": copy: "+err.String())
+					return
+				}
+			}
+			var code slip.Code
+			var err *lisp.Err
 			func() {
 				defer func() {
 					if rec := recover(); rec != nil {
 						err = lisp.ErrFromRecovered(rec)
 					}
 				}()
-				one := slip.Code{form}
-				one.Eval(s2, nil)
+				code = slip.ReadString(text2, s2)
 			}()
 			if err != nil {
-				fail(errWhat("eval-error", err), fmt.Sprintf("evaluating form %d of the text => %s", i+1, err.String()))
-				// S9: (defpackage name ...) evaluates its name; the load form
-				// gives a bare symbol. Step around it (quote every bare name of
-				// the case) so that the rest of the form is still compared.
-				if c.kind == "package" && degraded == "" && err.Class == "unbound-variable" {
-					degraded = " degraded=names-quoted"
-					text3 := strings.ReplaceAll(text2, " "+copyPrefix, " :"+copyPrefix)
-					err = nil
-					func() {
-						defer func() {
-							if rec := recover(); rec != nil {
-								err = lisp.ErrFromRecovered(rec)
-							}
-						}()
-						code = slip.ReadString(text3, s2)
-					}()
-					if err == nil {
-						res.Hit("lf-degraded-reload")
-						goto evalForms
-					}
-				}
+				fail(errWhat("read-error", err), "reading the text => "+err.String())
 				failed = true
 				break
 			}
+			if len(code) != len(forms) {
+				fail("form-count", fmt.Sprintf("the text reads as %d forms, %d were printed", len(code), len(forms)))
+				failed = true
+				break
+			}
+			at := 0
+			for i, form := range code {
+				func() {
+					defer func() {
+						if rec := recover(); rec != nil {
+							err = lisp.ErrFromRecovered(rec)
+						}
+					}()
+					one := slip.Code{form}
+					one.Eval(s2, nil)
+				}()
+				if err != nil {
+					at = i + 1
+					break
+				}
+			}
+			if err == nil {
+				break
+			}
+			// S9: step around a listed finding so that the rest of the form is still compared: the text is changed the
+			// way the finding's repair would have written it and evaluated again under another fresh prefix
+			if pass == 0 {
+				if text3, tag := stepAround(c, err, text, prefix); tag != "" {
+					what := errWhat("eval-error", err)
+					detail := fmt.Sprintf("evaluating form %d of the text => %s", at, err.String())
+					if c.inh != nil && 0 < len(c.parts) {
+						// a generated world: the listed finding is reported by the table case of its own (c.parts); here it
+						// is reported only when stepping around it does not help
+						deferred = func() { fail(what, detail) }
+						res.Hit("lf-listed-finding-stepped-around")
+					} else {
+						fail(what, detail)
+					}
+					degraded = tag
+					copyPrefix = fresh()
+					text2 = strings.ReplaceAll(text3, prefix, copyPrefix)
+					res.Hit("lf-degraded-reload")
+					continue
+				}
+			}
+			if deferred != nil {
+				deferred()
+			}
+			fail(errWhat("eval-error", err), fmt.Sprintf("evaluating form %d of the text => %s", at, err.String()))
+			failed = true
+			break
 		}
 		if failed {
 			continue
 		}
 		res.Hit("lf-roundtrips")
+		reported := map[string]bool{}
 		for i, p := range c.probes {
 			got := normDocs(strings.ReplaceAll(evalObserve(s2, ren(p, copyPrefix)), copyPrefix, prefix))
+			if c.inh != nil {
+				res.Hit("lf-inherit-probes-compared")
+			}
 			if got != orig[i] {
 				what := "probe-differs"
 				if strings.HasPrefix(p, "(make-load-form") {
 					what = "loadform-differs"
 				}
+				if i < len(c.pnames) && c.pnames[i] != "" {
+					what += ":" + c.pnames[i]
+				}
 				what += degraded
-				fail(what, fmt.Sprintf("%s => %s in the reloaded world, %s in the original", p,
-					strings.ReplaceAll(got, prefix, "$"), strings.ReplaceAll(orig[i], prefix, "$")))
-				break
+				if !reported[what] {
+					reported[what] = true
+					fail(what, fmt.Sprintf("%s => %s in the reloaded world, %s in the original", p,
+						strings.ReplaceAll(got, prefix, "$"), strings.ReplaceAll(orig[i], prefix, "$")))
+				}
+				if c.pnames == nil {
+					break
+				}
 			}
 		}
 	}
 	return
+}
+
+// stepAround rewrites a pretty printed text that could not be evaluated because of a listed finding the way the
+// finding's repair would have written it ("" tag: no step around applies).
+func stepAround(c *lfCase, err *lisp.Err, text, prefix string) (string, string) {
+	switch {
+	case c.kind == "package" && err.Class == "unbound-variable":
+		// (defpackage name ...) evaluates its name; the load form gives a bare symbol: quote every bare name of the case
+		return strings.ReplaceAll(text, " "+prefix, " :"+prefix), " degraded=names-quoted"
+	case c.kind == "class" && err.Class == "type-error" && strings.Contains(text, "(defclass") &&
+		(strings.Contains(text, ":readers") || strings.Contains(text, ":writers") || strings.Contains(text, ":accessors")):
+		// SlotDef.LoadForm writes :readers / :writers / :accessors, defclass takes :reader / :writer / :accessor
+		return slotOptionsSingular(text), " degraded=slot-options-singular"
+	}
+	return text, ""
+}
+
+func slotOptionsSingular(text string) string {
+	return strings.NewReplacer(":readers", ":reader", ":writers", ":writer", ":accessors", ":accessor").Replace(text)
 }
 
 // sortOption sorts the symbols of a flat option list: Flavor.LoadForm emits
